@@ -225,6 +225,10 @@ type request struct {
 	Jobs []job  `json:"jobs"`
 	Dir  string `json:"dir"`
 	Reg  bool   `json:"register"` // a host goroutine registers codecs while the evaluations run
+	// first-use rounds (firstuse.go): mode "firstuse-conc" / "firstuse-seq"
+	Rounds  int    `json:"rounds"`
+	Workers int    `json:"workers"`
+	Seed    uint64 `json:"seed"`
 }
 
 type result struct {
@@ -279,6 +283,10 @@ func main() {
 	}
 	ctx, cancel := context.WithTimeout(context.Background(), 60*time.Second)
 	defer cancel()
+	if req.Mode == "firstuse-conc" || req.Mode == "firstuse-seq" {
+		runFirstUse(ctx, req)
+		return
+	}
 
 	// shared importer and shared compiled code are created once, before the evaluations start
 	cfg := risor.NewConfig(risor.WithConcurrency())
